@@ -70,6 +70,8 @@ class CppEmitter:
             return t[1]
         if k == "unit":
             return "void"
+        if k == "str":
+            return "std::u16string_view" if t[1] == "u16" else "std::string_view"
         raise ValueError(t)
 
     # ---- arguments
